@@ -111,6 +111,10 @@ impl Plan {
 #[derive(Serialize, Deserialize, Clone, Debug)]
 pub struct VioRec {
     pub index: u64,
+    /// First job the worker process had run when it reached `index`: the history that
+    /// process had behind it, should the violation turn out to depend on earlier calls.
+    #[serde(default)]
+    pub range_lo: u64,
     pub kind: String,
     pub profile: String,
     pub scenario: Value,
@@ -204,6 +208,7 @@ pub fn worker<P: Property>(args: &[String]) -> i32 {
                 if keep {
                     w.violations.push(VioRec {
                         index,
+                        range_lo: lo,
                         kind: kind.to_string(),
                         profile: profile.clone(),
                         scenario: serde_json::to_value(&scn).unwrap(),
@@ -331,6 +336,7 @@ fn run_profile<P: Property>(
             let (scn, kind, _) = plan.job::<P>(seed, index);
             run.deaths.push(VioRec {
                 index,
+                range_lo: index,
                 kind: kind.to_string(),
                 profile: profile.to_string(),
                 scenario: serde_json::to_value(&scn).unwrap(),
@@ -406,20 +412,43 @@ fn matches_finding(f: &Finding, prop: &str, v: &Violation) -> bool {
 struct MinJob {
     scenario: Value,
     key: String,
+    /// Enough to regenerate the jobs the worker had run before this one.
+    tier: String,
+    seed: u64,
+    profile: String,
+    range_lo: u64,
+    index: u64,
+}
+
+/// A history to run in a fresh process: `prefix` first, then `scenario`; does the last
+/// step show the violation `key`?
+#[derive(Serialize, Deserialize)]
+struct HistoryTrial {
+    prefix: Vec<Value>,
+    scenario: Value,
+    key: String,
 }
 
 #[derive(Serialize, Deserialize)]
 struct MinOut {
     scenario: Value,
+    /// Earlier operations (scenarios) the violation needs, in order; empty when the
+    /// scenario fails on its own.
+    #[serde(default)]
+    history: Vec<Value>,
+    #[serde(default)]
+    history_note: String,
     evals: u64,
     accepted: u64,
 }
 
 pub fn minimise<P: Property>(args: &[String]) -> i32 {
     let job: MinJob = serde_json::from_slice(&fs::read(&args[0]).unwrap()).unwrap();
-    let mut cur: P::Scn = serde_json::from_value(job.scenario).unwrap();
+    let mut cur: P::Scn = serde_json::from_value(job.scenario.clone()).unwrap();
     let has = |s: &P::Scn| P::run(s, false).violations.iter().any(|v| v.key() == job.key);
     let (mut evals, mut accepted) = (1u64, 0u64);
+    let mut history: Vec<Value> = vec![];
+    let mut history_note = String::new();
     if has(&cur) {
         'outer: loop {
             for cand in P::shrink(&cur) {
@@ -435,11 +464,113 @@ pub fn minimise<P: Property>(args: &[String]) -> i32 {
             }
             break;
         }
+    } else if job.index > job.range_lo {
+        // On its own, in this fresh process, the scenario is fine: the violation needs
+        // something an earlier call left behind. Find which earlier operations.
+        let (h, note, trials) = minimise_history::<P>(&job, Path::new(&args[0]));
+        history = h;
+        history_note = note;
+        evals += trials;
+    } else {
+        history_note = "the scenario does not fail on its own and there is no earlier job to blame".into();
     }
-    let out = MinOut { scenario: serde_json::to_value(&cur).unwrap(), evals, accepted };
+    let out = MinOut { scenario: serde_json::to_value(&cur).unwrap(), history, history_note, evals, accepted };
     fs::write(&args[1], serde_json::to_vec(&out).unwrap()).unwrap();
     scratch_cleanup();
     0
+}
+
+/// `history-run <prop> <file>`: runs a `HistoryTrial` in this (fresh) process; exit 0 if the
+/// last step shows the violation, 1 if not.
+pub fn history_run<P: Property>(args: &[String]) -> i32 {
+    let t: HistoryTrial = match fs::read(&args[0]).map_err(|e| e.to_string()).and_then(|b| serde_json::from_slice(&b).map_err(|e| e.to_string())) {
+        Ok(t) => t,
+        Err(_) => return 2,
+    };
+    for v in t.prefix {
+        if let Ok(s) = serde_json::from_value::<P::Scn>(v) {
+            let _ = P::run(&s, false);
+        }
+    }
+    let Ok(s) = serde_json::from_value::<P::Scn>(t.scenario) else { return 2 };
+    let hit = P::run(&s, false).violations.iter().any(|v| v.key() == t.key);
+    scratch_cleanup();
+    if hit {
+        0
+    } else {
+        1
+    }
+}
+
+/// Delta debugging over the jobs the worker ran before the failing one. Every trial runs
+/// in a fresh child process, because the state in question lives in the process.
+fn minimise_history<P: Property>(job: &MinJob, scratch: &Path) -> (Vec<Value>, String, u64) {
+    let me = std::env::current_exe().unwrap();
+    let plan = plan::<P>(&job.tier, &job.profile, job.seed);
+    let lo = job.range_lo.max(job.index.saturating_sub(40_000));
+    let prefix: Vec<Value> = (lo..job.index).map(|i| serde_json::to_value(plan.job::<P>(job.seed, i).0).unwrap()).collect();
+    let file = scratch.with_extension("history-trial.json");
+    let trials = std::cell::Cell::new(0u64);
+    let t0 = Instant::now();
+    let fails = |p: &[Value]| -> bool {
+        trials.set(trials.get() + 1);
+        let t = HistoryTrial { prefix: p.to_vec(), scenario: job.scenario.clone(), key: job.key.clone() };
+        if fs::write(&file, serde_json::to_vec(&t).unwrap()).is_err() {
+            return false;
+        }
+        limited(&me, &["history-run".into(), P::ID.into(), file.to_string_lossy().into_owned()])
+            .stdout(Stdio::null())
+            .stderr(Stdio::null())
+            .status()
+            .map_or(false, |s| s.code() == Some(0))
+    };
+    // most leaks come from the calls just before: grow a suffix until it fails
+    let mut cur: Vec<Value> = vec![];
+    let mut len = 1usize;
+    let mut found = false;
+    while len <= prefix.len() {
+        let suf = &prefix[prefix.len() - len..];
+        if fails(suf) {
+            cur = suf.to_vec();
+            found = true;
+            break;
+        }
+        if len == prefix.len() {
+            break;
+        }
+        len = (len * 4).min(prefix.len());
+    }
+    if !found {
+        let _ = fs::remove_file(&file);
+        return (vec![], format!("not reproduced even with the {} jobs the worker had run before it", prefix.len()), trials.get());
+    }
+    // ddmin: remove chunks while the last step still fails
+    let mut n = 2usize;
+    while cur.len() >= 2 && trials.get() < 200 && t0.elapsed().as_secs() < 150 {
+        let chunk = cur.len().div_ceil(n);
+        let mut reduced = false;
+        let mut i = 0;
+        while i < cur.len() {
+            let mut cand = cur[..i].to_vec();
+            cand.extend_from_slice(&cur[(i + chunk).min(cur.len())..]);
+            if !cand.is_empty() && fails(&cand) {
+                cur = cand;
+                n = (n - 1).max(2);
+                reduced = true;
+                break;
+            }
+            i += chunk;
+        }
+        if !reduced {
+            if chunk == 1 {
+                break;
+            }
+            n = (n * 2).min(cur.len());
+        }
+    }
+    let _ = fs::remove_file(&file);
+    let note = format!("the scenario fails only after {} earlier operation(s) in the same process (from {} candidates)", cur.len(), prefix.len());
+    (cur, note, trials.get())
 }
 
 // ---------------------------------------------------------------------------
@@ -455,6 +586,10 @@ struct ReplayFile {
     job_kind: String,
     profile: String,
     violation: Violation,
+    /// Earlier operations, executed first in the same process, for violations that need a
+    /// history (state left behind by earlier calls). Usually empty.
+    #[serde(default)]
+    history: Vec<Value>,
     /// The minimised schedule-and-fault trace: executing it needs no PRNG.
     scenario: Value,
     scenario_as_found: Value,
@@ -482,13 +617,17 @@ pub fn replay_child(args: &[String]) -> i32 {
             return 2;
         }
     };
-    fn go<P: Property>(v: Value) -> Result<RunResult, String> {
+    fn go<P: Property>(history: Vec<Value>, v: Value) -> Result<RunResult, String> {
+        for h in history {
+            let s: P::Scn = serde_json::from_value(h).map_err(|e| e.to_string())?;
+            let _ = P::run(&s, false);
+        }
         let s: P::Scn = serde_json::from_value(v).map_err(|e| e.to_string())?;
         Ok(P::run(&s, true))
     }
     let rr = match rf.property.as_str() {
-        "C13" => go::<crate::C13>(rf.scenario),
-        "C14" => go::<crate::C14>(rf.scenario),
+        "C13" => go::<crate::C13>(rf.history, rf.scenario),
+        "C14" => go::<crate::C14>(rf.history, rf.scenario),
         p => Err(format!("unknown property {p}")),
     };
     scratch_cleanup();
@@ -701,13 +840,14 @@ fn run_inner<P: Property>(args: &[String]) -> Result<i32, String> {
         }
         let bin = &profiles.iter().find(|p| p.0 == rec.profile).unwrap().1;
         // minimise in a limited child process
-        let (min_scn, min_info) = if v.class.starts_with("process-death") {
-            (rec.scenario.clone(), json!({"skipped": "process death: scenario kept as found"}))
+        let (min_scn, min_history, min_info) = if v.class.starts_with("process-death") {
+            (rec.scenario.clone(), vec![], json!({"skipped": "process death: scenario kept as found"}))
         } else {
             let inp = work.join("min-in.json");
             let outp = work.join("min-out.json");
             let _ = fs::remove_file(&outp);
-            fs::write(&inp, serde_json::to_vec(&MinJob { scenario: rec.scenario.clone(), key: key.clone() }).unwrap()).map_err(|e| e.to_string())?;
+            let mj = MinJob { scenario: rec.scenario.clone(), key: key.clone(), tier: tier.clone(), seed, profile: rec.profile.clone(), range_lo: rec.range_lo, index: rec.index };
+            fs::write(&inp, serde_json::to_vec(&mj).unwrap()).map_err(|e| e.to_string())?;
             let st = limited(bin, &["minimise".into(), P::ID.into(), inp.to_string_lossy().into_owned(), outp.to_string_lossy().into_owned()])
                 .stdout(Stdio::null())
                 .stderr(Stdio::null())
@@ -716,9 +856,10 @@ fn run_inner<P: Property>(args: &[String]) -> Result<i32, String> {
             match (st.success(), fs::read(&outp)) {
                 (true, Ok(b)) => {
                     let m: MinOut = serde_json::from_slice(&b).map_err(|e| e.to_string())?;
-                    (m.scenario, json!({"evaluations": m.evals, "accepted_steps": m.accepted}))
+                    let info = json!({"evaluations": m.evals, "accepted_steps": m.accepted, "history_steps": m.history.len(), "history_note": m.history_note});
+                    (m.scenario, m.history, info)
                 }
-                _ => (rec.scenario.clone(), json!({"skipped": format!("minimiser died ({})", death_reason(&st))})),
+                _ => (rec.scenario.clone(), vec![], json!({"skipped": format!("minimiser died ({})", death_reason(&st))})),
             }
         };
         let file = root.join("replays").join(format!("{}-{}-{}-{}.json", P::ID, seed, rec.index, sanitize(key)));
@@ -731,6 +872,7 @@ fn run_inner<P: Property>(args: &[String]) -> Result<i32, String> {
             job_kind: rec.kind.clone(),
             profile: rec.profile.clone(),
             violation: v.clone(),
+            history: min_history,
             scenario: min_scn,
             scenario_as_found: rec.scenario.clone(),
             minimise: min_info,
